@@ -373,3 +373,57 @@ def c16(tier, replay=None):
     chk.part("harness", **info)
     chk.assumptions += ["domain: complete witnesses (>= 1 failed property, a value for every input, >= 1 recorded index per array state, bit-vector inputs)"]
     return chk.finish()
+
+
+# ------------------------------------------------------------------------------------------------
+def c20(tier, replay=None):
+    chk = Check("C20", tier, "model_checking")
+    T = chk.thorough()
+    # (M) operations other than coalesce, all operation sequences to MaxDepth over two terminals
+    cfg = pv.write_cfg(chk.work / "ValueSummary.cfg", constants={"NV": 4, "MaxDepth": 6 if T else 5}, invariants=("Ok",))
+    r = pv.tlc_ok("ValueSummary", cfg, workers=8, timeout=3000)
+    chk.add_states(r.generated, r.distinct)
+    chk.part("ValueSummary_model", states=r.distinct)
+    # (M) coalesce_entries + delete_entries as in the (repaired) code, over all ordered partitions
+    cc = {"Vals": '{"a", "b", "c"}' if T else '{"a", "b"}', "NV": 4, "SortDeleteList": "TRUE"}
+    cfg = pv.write_cfg(chk.work / "Coalesce.cfg", constants=cc, invariants=("Ok",))
+    r = pv.tlc_ok("Coalesce", cfg, workers=8, timeout=3000)
+    chk.add_states(r.generated, r.distinct)
+    chk.part("Coalesce_model", states=r.distinct)
+    # non-vacuity of the model: with the unsorted delete list the invariant must fail
+    cfg = pv.write_cfg(chk.work / "CoalesceNeg.cfg", constants={"Vals": '{"a", "b"}', "NV": 4, "SortDeleteList": "FALSE"}, invariants=("Ok",))
+    rn = pv.tlc("Coalesce", cfg, workers=4, timeout=600)
+    if "Ok" not in rn.violated:
+        raise ToolError("Coalesce model no longer distinguishes the sorted from the unsorted delete list")
+    parts, gen, dist = pv.generate("Coalesce", {"Vals": '{"a", "b"}', "NV": 4, "SortDeleteList": "TRUE"}, "coalesce_parts", workers=4, deps=["Coalesce"])
+    trace = chk.work / "trace.ndjson"
+    if replay:
+        rep = json.loads(Path(replay).read_text())
+        pv.write_ndjson(trace, [rep["detail"]["record"]])
+        info = {"records": 1, "recipes": 1}
+    else:
+        pv.write_ndjson(chk.work / "in.ndjson", parts)
+        jobs = [(["c20", "--in", chk.work / "in.ndjson", "--out", chk.work / "t0.ndjson", "--random", 6000 if T else 1200, "--terminals", 2], None),
+                (["c20", "--out", chk.work / "t1.ndjson", "--random", 3000 if T else 500, "--terminals", 3], {"VERIF_SEED": pv.seed() + 1}),
+                (["c20", "--out", chk.work / "t2.ndjson", "--random", 1500 if T else 150, "--terminals", 4], {"VERIF_SEED": pv.seed() + 2})]
+        res = pv.pv_parallel(jobs)
+        info = {"records": 0, "recipes": 0}
+        with open(trace, "w") as f:
+            for k, p in enumerate(res):
+                i = json.loads(p.stdout.strip().splitlines()[-1])
+                info["records"] += i["records"]
+                info["recipes"] += i["recipes"]
+                f.write((chk.work / f"t{k}.ndjson").read_text())
+    st = batch_check(chk, "Trace_C20", trace, lambda rj, rec: {"why": rj["why"], "op": rj.get("op", ""), "loc": rj.get("loc", "")},
+                     lambda rj, rec: {"record": rec, "tlc": rj}, shards=14)
+    chk.cov["traces_validated_against_impl"] = info["recipes"]
+    chk.cov["evaluations"] = st["records"]
+    chk.cov["distinct_nontrivial"] = info["recipes"]
+    chk.cov["rule"] = (f"all {len(parts)} ordered partitions (<= 4 entries, 2 values) of the Coalesce model built with ite chains and coalesced on the real "
+                       "ValueSummary + seeded random operation recipes (new / apply_bin_op / apply_ite / coalesce / import_into_guard / expr_to_guard, "
+                       "2-4 Boolean terminals plus non-Boolean 1-bit sub-terms over two 2-bit symbols); after every operation the guards are tabulated "
+                       "over all assignments through the hook; distinct = recipes")
+    sample_lines(chk, trace, 2, lambda r: {"id": r["id"], "op": r["op"], "entries": [{"g": "".join(map(str, e["g"])), "v": e["v"]} for e in r["entries"]], "den": r["den"],
+                                          "nodes": [[n["op"], n["name"], n["a"]] for n in r["nodes"]]})
+    chk.part("harness", **info)
+    return chk.finish()
